@@ -107,10 +107,16 @@ def resolve_value(desc, kind, idx, name, _depth=0):
     return rows_of(desc, kind)[idx]['values'][pos]
 
 
+def key_pairs(source_keys, target_keys):
+    """The key attributes of an association: which referential attribute refers to which identifying attribute.  The
+    order in which the pairs are listed carries no meaning, so the pairs are kept sorted."""
+    return sorted([s, t] for s, t in zip(source_keys, target_keys))
+
+
 def assoc_sig(a):
     s, t = a['source'], a['target']
-    return [a['rel_id'], s['kind'], list(s['keys']), bool(s['many']), bool(s['cond']), s['phrase'],
-            t['kind'], list(t['keys']), bool(t['many']), bool(t['cond']), t['phrase']]
+    return [a['rel_id'], s['kind'], key_pairs(s['keys'], t['keys']), bool(s['many']), bool(s['cond']), s['phrase'],
+            t['kind'], len(t['keys']), bool(t['many']), bool(t['cond']), t['phrase']]
 
 
 def link_tag(sig):
@@ -152,9 +158,9 @@ def observe(m):
     assocs, links = [], []
     for ass in m.associations:
         to_source, to_target = ass.source_link, ass.target_link     # link leading to the referring / referred class
-        sig = [ass.rel_id, to_source.kind, list(ass.source_keys), bool(to_source.many), bool(to_source.conditional),
-               to_target.phrase,
-               to_target.kind, list(ass.target_keys), bool(to_target.many), bool(to_target.conditional), to_source.phrase]
+        sig = [ass.rel_id, to_source.kind, key_pairs(ass.source_keys, ass.target_keys), bool(to_source.many),
+               bool(to_source.conditional), to_target.phrase,
+               to_target.kind, len(ass.target_keys), bool(to_target.many), bool(to_target.conditional), to_source.phrase]
         assocs.append(sig)
         tag = link_tag(sig)
         for inst in m.select_many(sig[1]):
